@@ -459,7 +459,8 @@ func (w *World) appApply(n *Node, rec *StepRec, ents []*pb.Entry) {
 			// configuration it is applied to and cancels an invalid one (one that would
 			// remove the last voter) by applying it with the node id zeroed, which raft
 			// documents as the way to skip a change downstream of raft.
-			if _, err := confOfState(n.vs()).ApplyV2(int(cc.AsV2().GetTransition()), toChanges(cc.AsV2().GetChanges())); err != nil {
+			cur := n.RN.VerifState() // not the cached dump: earlier entries of this batch may have changed the configuration
+			if _, err := confOfState(&cur).ApplyV2(int(cc.AsV2().GetTransition()), toChanges(cc.AsV2().GetChanges())); err != nil {
 				cc = &pb.ConfChange{Type: pb.ConfChangeAddNode.Enum(), NodeId: new(uint64(0))}
 				rec.ConfCancelled = append(rec.ConfCancelled, e.GetIndex())
 				w.Counters["conf_changes_cancelled_by_application"]++
